@@ -210,9 +210,14 @@ impl SixelParser {
             .get_color((self.current_sixel_color) % self.current_sixel_palette.len() as u32)
             .clone();
         let x_pos = self.sixel_cursor.x;
-        let y_pos = self.sixel_cursor.y * 6;
+        let y_pos = self.sixel_cursor.y.saturating_mul(6);
+        if x_pos >= MAX_SIXEL_DIMENSION || y_pos >= MAX_SIXEL_DIMENSION {
+            // outside of the largest picture (the cursor can be moved there by repeated '-' or data characters)
+            self.sixel_cursor.x = self.sixel_cursor.x.saturating_add(1);
+            return Ok(());
+        }
 
-        let mut last_line = y_pos + 6;
+        let mut last_line = (y_pos + 6).min(MAX_SIXEL_DIMENSION);
         if self.height_set && last_line > self.height() {
             last_line = self.height();
         }
@@ -258,7 +263,7 @@ impl SixelParser {
             }
             '-' => {
                 self.sixel_cursor.x = 0;
-                self.sixel_cursor.y += 1;
+                self.sixel_cursor.y = self.sixel_cursor.y.saturating_add(1);
             }
             '$' => {
                 self.sixel_cursor.x = 0;
